@@ -239,8 +239,9 @@ package implements
 //@   loop 2 invariant forall j int :: 0 <= j && j < $i && indom(pkgToInterface, $seq[j].Path()) ==> contains(packagesToScan, $seq[j])
 //@   loop 3 invariant forall k int :: 0 <= k && k < len(result) ==> result[k] != nil && fresh(result[k])
 //@   loop 3 invariant forall p string, n string :: hasIfaceModel(result, p, n) <==> (exists k int :: 0 <= k && k < $i && packagesToScan[k].Path() == p && tmHas(pkgToInterface, p, n) && declaresIface(packagesToScan[k], n))
-// a type model is loaded for name n exactly if n is asked for and the package declares a defined (named) type n
-//@ macro func declaresNamed(pkg *types.Package, n string) bool = contains(pkg.Scope().Names(), n) && pkg.Scope().Lookup(n) != nil && typeis(pkg.Scope().Lookup(n), *types.TypeName) && typeis(pkg.Scope().Lookup(n).Type(), *types.Named)
+// a type model is loaded for name n exactly if n is asked for and the package declares a type name n that denotes a defined
+// (named) type - directly or as an alias of one
+//@ macro func declaresNamed(pkg *types.Package, n string) bool = contains(pkg.Scope().Names(), n) && pkg.Scope().Lookup(n) != nil && typeis(pkg.Scope().Lookup(n), *types.TypeName) && typeis(types.Unalias(pkg.Scope().Lookup(n).Type()), *types.Named)
 //@ pure func hasTypeModel(l []*TypeModel, n string) bool = exists k int :: 0 <= k && k < len(l) && l[k].Name == n
 //@ func findTypesInPackage
 //@   props C05 C10
@@ -252,7 +253,7 @@ package implements
 //@   loop 1 frame
 //@   loop 1 invariant uniqueTypes(result) && (forall k int :: 0 <= k && k < len(result) ==> (exists j int :: 0 <= j && j < $i && result[k].Name == $seq[j]))
 //@   loop 1 invariant forall k int :: 0 <= k && k < len(result) ==> result[k] != nil && fresh(result[k]) && uniqueNames(result[k]) && result[k].Package == pkg.Path()
-//@   loop 1 invariant forall n string :: hasTypeModel(result, n) <==> (targetTypes[n] && pkg.Scope().Lookup(n) != nil && typeis(pkg.Scope().Lookup(n), *types.TypeName) && typeis(pkg.Scope().Lookup(n).Type(), *types.Named) && (exists j int :: 0 <= j && j < $i && $seq[j] == n))
+//@   loop 1 invariant forall n string :: hasTypeModel(result, n) <==> (targetTypes[n] && pkg.Scope().Lookup(n) != nil && typeis(pkg.Scope().Lookup(n), *types.TypeName) && typeis(types.Unalias(pkg.Scope().Lookup(n).Type()), *types.Named) && (exists j int :: 0 <= j && j < $i && $seq[j] == n))
 //@ func LoadTypes
 //@   props C05 C10
 //@   requires pass.Pkg != nil
